@@ -1,5 +1,6 @@
 import Kopf.Drv.Json
 import Kopf.Model.C08_Patching
+import Kopf.Model.C08_Discovery
 open Lean
 namespace Kopf.Drv.C08
 open Kopf.C08
@@ -164,8 +165,26 @@ def runLabels (sub : Bool) : List Json → DaemonsState → List Json → Option
           (Json.mkObj [("daemon", .str d), ("fields", ofJ (.obj p.fields)), ("fns", .arr (p.fns.map fnJson).toArray),
                        ("result", resultJson r)] :: acc)
 
+def namesOf? (j : Json) : Option (List Kopf.C08.Name) := do (← jStrList? j).mapM (fun s => some s.toList)
+
+def nameJson (n : Kopf.C08.Name) : Json := .str (String.ofList n)
+
+/-- the `sub` of a call: given, or — with a `discovery` field `{names, plural}` — what the model of
+    `scanning._read_version` + `'status' in resource.subresources` makes of the discovery answer the cluster served -/
+def subOf? (j : Json) : Option Bool :=
+  match jField? j "discovery" with
+  | some d => do
+      let names ← namesOf? (← jField? d "names")
+      let plural ← jStr? (← jField? d "plural")
+      some (believesStatus names plural.toList)
+  | none => do jBool? (← jField? j "sub")
+
 def handle : DrvHandler := fun op args =>
   match op, args with
+  | "C08.discover", [j] => do
+      let names ← namesOf? j
+      some (ok (.arr ((readVersion names).map (fun (p, subs) =>
+        Json.arr #[nameJson p, .arr (subs.map nameJson).toArray])).toArray))
   | "C08.patch", [j] => do
       let sub ← jBool? (← jField? j "sub")
       let fields ← kvsOf? (← jField? j "fields")
@@ -175,7 +194,7 @@ def handle : DrvHandler := fun op args =>
       let env ← envOf? j
       some (ok (resultJson (patchObj sub ⟨fields, fns⟩ orig env s)))
   | "C08.cycles", [j] => do
-      let sub ← jBool? (← jField? j "sub")
+      let sub ← subOf? j
       let daemon ← jBool? (← jField? j "daemon")
       let s ← serverOf? (← jField? j "server")
       let mem ← jOpt? fnsOf? (← jField? j "memory")
